@@ -93,7 +93,10 @@ TOL = 1e-12
 NAMES = ['H2', 'O2', 'H2O', 'CO', 'CO2', 'CH4', 'NH3', 'N2', 'CH3OH', 'H(S)', 'O(S)', 'OH(S)',
          'CO(S)', 'PT(S)', 'PT(B)', 'A*', 'sp_1', 'TS1', 'TS2_END', 'C2H4', 'X"q\\', 'ΩH', 'M(S)']
 NOTES = [None, None, 'ref: J. Phys. Chem. C 2014', {'source': 'NIST', 'year': 2011, 'ok': True},
-         'multi\nline "quoted" \\ note', '', {'levels': [1, 2.5, 'x'], 'nested': {'a': None}}]
+         'multi\nline "quoted" \\ note', '', {'levels': [1, 2.5, 'x'], 'nested': {'a': None}},
+         # user dictionaries whose keys collide with the serialisation's own bookkeeping keys
+         {'class': 'alkane', 'type': 'gas', '_id': 7}, {'class': None}, {'class': ['a', 'b']},
+         {'reaction_str': 'x', 'intercepts': [1]}]
 SMILES = [None, None, 'C', 'O=C=O', '[H][H]', 'CO']
 DESCRIPTORS = ['delta_H', 'rev_delta_H', 'reactants_H', 'products_H', 'delta_E', 'rev_delta_E',
                'reactants_E', 'products_E']
